@@ -82,7 +82,7 @@ INITS = ['auto', 'pca', 'identity', 'random', '@randn', 'lda', '@aniso']
 def cases(tier, seed):
   out = []
   q = tier == 'quick'
-  nper = 24 if q else 200
+  nper = 24 if q else 2000
   for name in ('NCA', 'MLKR', 'LMNN'):
     for i in range(nper + (16 if q and name == 'LMNN' else 0)):
       r = rng_for('c10', seed, name, i)
